@@ -29,6 +29,8 @@ pub enum Dev {
     BothIdentity,
     /// keys algebraically related to the right one: 0 = -sk, 1 = sk+1, 2 = 2 sk, 3 = sk-1
     RelatedKey(u8),
+    /// u (false) or w (true) plus a point outside the prime order subgroup, presented through a decoder
+    AddTorsion(bool, Codec),
 }
 
 #[derive(Clone, Debug, PartialEq, Eq, Hash, Serialize, Deserialize)]
@@ -68,10 +70,11 @@ pub fn lens_for(tier: Tier) -> Vec<usize> {
         let mut v: Vec<usize> = (0..=40).collect();
         v.extend(100..=140);
         v.extend(16380..=16390);
-        v.push(65536);
+        v.extend([65535, 65536, 65537, 2097150, 2097151, 2097152, 2097153]);
         v
     } else {
-        vec![0, 1, 30, 31, 32, 33, 40, 127, 128, 140, 16383, 16384]
+        // incl. the lengths at which the LEB128 length prefix grows to 3 and to 4 bytes and the 16 bit boundary
+        vec![0, 1, 30, 31, 32, 33, 40, 127, 128, 140, 16383, 16384, 65535, 65536, 65537, 2097151, 2097152]
     }
 }
 
@@ -211,6 +214,12 @@ impl<C: Suite> Model for M11<C> {
                 a.push(Dev::W(op));
             }
             a.push(Dev::BothIdentity);
+            if st.len <= 1000 {
+                for c in DECODERS {
+                    a.push(Dev::AddTorsion(false, c));
+                    a.push(Dev::AddTorsion(true, c));
+                }
+            }
             for j in 2..5 {
                 a.push(Dev::WrongKey(j));
             }
@@ -325,6 +334,22 @@ impl<C: Suite> Model for M11<C> {
                     c.u = PkP::<C>::identity();
                     c.w = SgP::<C>::identity();
                 }
+                Dev::AddTorsion(is_w, c) => {
+                    let from = if is_w { pt(&ct0.w) } else { pt(&ct0.u) };
+                    let to = rf::torsion_perturbed(&from).expect("a point outside the subgroup");
+                    match redecode_with_point(&ct0, &from, &to, c) {
+                        Ok(x) => ct = Some(x),
+                        Err(e) if e == "component-not-found" => {
+                            o.expect(&format!("C11:harness-locates-component:{}", g), false, "found", &e);
+                            return;
+                        }
+                        Err(_) => {
+                            o.outcome("mutant:undecodable");
+                            o.record("undecodable", &[]);
+                            return;
+                        }
+                    }
+                }
                 Dev::WrongKey(j) => dsk = self.sks[j].clone(),
                 Dev::RelatedKey(r) => {
                     let one = Sc::<C>::ONE;
@@ -397,7 +422,7 @@ impl<C: Suite> Model for M11<C> {
             let ok = valid && dec.as_ref() == Some(&msg) && kdec.as_ref() == Some(&msg);
             if st.devs.iter().all(|d| matches!(d, Dev::Transport(_))) {
                 o.outcome(if ok { "honest:round-trip" } else { "honest:fails" });
-                let lc = if st.len <= 40 { "len<=40" } else if st.len <= 140 { "len<=140" } else { "len>=16380" };
+                let lc = if st.len <= 40 { "len<=40" } else if st.len <= 140 { "len<=140" } else if st.len < 65535 { "len>=16380" } else if st.len < 2097151 { "len>=65535" } else { "len>=2^21-1" };
                 o.expect(&format!("C11:round-trip:{}:{}:{}:{}", g, st.s.name(), cls, lc), ok, "valid and decrypts to the message (both ways)", &format!("valid={} decrypt={:?} key-decrypt={:?}", valid, dec.as_ref().map(|m| m == &msg), kdec.as_ref().map(|m| m == &msg)));
             } else {
                 o.outcome(if ok { "mutant:decodes-equal-unchanged" } else { "mutant:decodes-equal-changed" });
